@@ -62,6 +62,9 @@ def case_temp(psutil, case):
     w.mkdir("/sys/class/hwmon/hwmon1")
     w.set_file("/sys/class/hwmon/hwmon1/name", b"chipB\n")
     w.set_file("/sys/class/hwmon/hwmon1/temp1_input", b"30500\n")
+    # ... a chip with a two-digit number of sensors (coretemp on a many-core CPU, a Super-I/O chip)
+    for i_ in range(2, 13):
+        w.set_file("/sys/class/hwmon/hwmon1/temp%d_input" % i_, b"%d\n" % (30500 + 500 * i_))
     if nesting == "coretemp-dup":
         # the same sensors also appear under /sys/devices/platform/coretemp.0: must not be listed twice
         d = "/sys/devices/platform/coretemp.0/hwmon/hwmon0"
@@ -74,7 +77,7 @@ def case_temp(psutil, case):
         if c is None:
             return None
         return c * 9 / 5 + 32 if fahr else c
-    exp = {"chipA": [], "chipB": [["", conv(30.5), None, None]]}
+    exp = {"chipA": [], "chipB": [["", conv(30.5), None, None]] + [["", conv((30500 + 500 * i_) / 1000.0), None, None] for i_ in range(2, 13)]}
     if st_in == "ok":
         h = hi / 1000.0 if st_max == "ok" else None
         c = cr / 1000.0 if st_crit == "ok" else None
@@ -93,6 +96,9 @@ def case_temp(psutil, case):
         if a is None or b is None or isinstance(a, str):
             return a == b
         return abs(a - b) < 1e-9
+    # (the order of the sensors of one chip is not part of the statement: temp10 sorts before temp2 as a string)
+    g = {k: sorted(v, key=lambda r: (r[0], r[1])) for k, v in g.items()}
+    exp = {k: sorted(v, key=lambda r: (r[0], r[1])) for k, v in exp.items()}
     ok = sorted(g) == sorted(exp) and all(len(g[k]) == len(exp[k]) and all(all(close(x, y) for x, y in zip(r1, r2)) for r1, r2 in zip(g[k], exp[k])) for k in exp)
     if not ok:
         what = "thresholds" if st_in == "ok" and sorted(g) == sorted(exp) and all(len(g[k]) == len(exp[k]) for k in exp) else "sensors"
@@ -296,6 +302,14 @@ def case_cpu(psutil, case):
         got = outcome(psutil.cpu_stats)
         if got[0] != "ok" or (got[1].ctx_switches, got[1].interrupts, got[1].soft_interrupts) != (ctxt, intr, soft):
             bad.append(("cpu_stats", "%r expected %r" % (freeze(got), (ctxt, intr, soft))))
+    elif k == "stats-big":
+        # scale: /proc/stat much longer than a read buffer (hundreds of CPUs, a long interrupt line) -- ctxt/intr/softirq come last
+        w.ncpus = case[2]
+        w.cpu_times = [[10 ** 11 + (c + 1) * 100003 + 7 * i for i in range(10)] for c in range(case[2])]
+        w.ctxt, w.intr, w.softirq = 123456789012, 987654321098, 55555555555
+        got = outcome(psutil.cpu_stats)
+        if got[0] != "ok" or (got[1].ctx_switches, got[1].interrupts, got[1].soft_interrupts) != (w.ctxt, w.intr, w.softirq):
+            bad.append(("cpu_stats:large-table", "%d CPUs: %r expected %r" % (case[2], freeze(got), (w.ctxt, w.intr, w.softirq))))
     elif k == "btime":
         w.btime = case[2]
         got = outcome(psutil.boot_time)
@@ -474,6 +488,7 @@ def build_cases(thorough):
         cases.append(("cpu", "stats", 3, 4, v))
     for b in (0, 1, 1700000000, 2 ** 31, 2 ** 32 + 5):
         cases.append(("cpu", "btime", b))
+    cases.append(("cpu", "stats-big", 700))
     offs = (0, 1, -1, 2, -2, 3600)
     for a in offs:
         for b in offs:
